@@ -4,6 +4,12 @@
 //	gen <listing|chain|ops|script> <script bytes>  -> ok <output bytes> | err <class>
 //	runlisting <script bytes> <separate|aliased>   -> ok <value of z> <x written 0|1> <registers> | err <class>
 //
+//	genstdout <type> <script bytes>                -> ok <exit status> <stdout bytes>     (real binary)
+//	genout <type|tmpl:type|tmpl:broken> <script bytes> ...
+//	    the real binary run as `addchain gen (-type T | -tmpl FILE) -out F script` once per script, always
+//	    into the same F (scripts alternately as a file argument and on standard input)
+//	                                               -> ok <exit statuses> <final bytes of F | nofile>
+//
 // Error classes: parse, toolarge (a shift above 4096: not evaluated by either
 // side), undefined, redefine, dangling, empty (no instruction), conflict,
 // bounds, outindex; for runlisting also badlisting, unwritten.
@@ -11,13 +17,18 @@ package main
 
 import (
 	"bytes"
+	"context"
 	"fmt"
 	"math/big"
+	"os"
+	"os/exec"
+	"path/filepath"
 	"reflect"
 	"regexp"
 	"sort"
 	"strconv"
 	"strings"
+	"time"
 
 	"github.com/mmcloughlin/addchain"
 	"github.com/mmcloughlin/addchain/acc"
@@ -251,6 +262,117 @@ func runListing(text string, aliased bool) string {
 	return "ok " + zs + " " + lib.Bool(m.written[inName]) + " " + m.dump()
 }
 
+// ---------------------------------------------------------------- the real binary
+
+var scratchSeq int
+
+func scratch() string {
+	base := os.Getenv("VERIF_BUILD")
+	if base == "" {
+		base = os.TempDir()
+	}
+	scratchSeq++
+	d := filepath.Join(base, fmt.Sprintf("genout-%d-%d", os.Getpid(), scratchSeq))
+	if err := os.MkdirAll(d, 0o755); err != nil {
+		panic(err)
+	}
+	return d
+}
+
+// addchainGen runs `addchain gen args...`; the script is passed as a file (asFile) or on standard input.
+func addchainGen(dir string, args []string, script string, asFile bool) (exit int, stdout string) {
+	bin := os.Getenv("ADDCHAIN_BIN")
+	if bin == "" {
+		panic("ADDCHAIN_BIN not set")
+	}
+	ctx, cancel := context.WithTimeout(context.Background(), 60*time.Second)
+	defer cancel()
+	a := append([]string{"gen"}, args...)
+	var stdin *strings.Reader
+	if asFile {
+		f := filepath.Join(dir, "in.acc")
+		if err := os.WriteFile(f, []byte(script), 0o644); err != nil {
+			panic(err)
+		}
+		a = append(a, f)
+		stdin = strings.NewReader("")
+	} else {
+		stdin = strings.NewReader(script)
+	}
+	cmd := exec.CommandContext(ctx, bin, a...)
+	cmd.Stdin = stdin
+	var out bytes.Buffer
+	cmd.Stdout = &out
+	err := cmd.Run()
+	if ctx.Err() != nil {
+		return -1, out.String()
+	}
+	if err != nil {
+		if ee, ok := err.(*exec.ExitError); ok {
+			return ee.ExitCode(), out.String()
+		}
+		panic(err)
+	}
+	return 0, out.String()
+}
+
+// templateArgs turns the type token of a case into command-line arguments (-type T, or -tmpl FILE with
+// the text of builtin template T, or -tmpl FILE with a text that text/template cannot parse).
+func templateArgs(dir, sel string) []string {
+	if strings.HasPrefix(sel, "tmpl:") {
+		name := strings.TrimPrefix(sel, "tmpl:")
+		text := "{{ .Nope"
+		if name != "broken" {
+			t, err := verifhook.GenBuiltinTemplate(name)
+			if err != nil {
+				panic("harness: no builtin template " + name)
+			}
+			text = t
+		}
+		f := filepath.Join(dir, "custom.tmpl")
+		if err := os.WriteFile(f, []byte(text), 0o644); err != nil {
+			panic(err)
+		}
+		return []string{"-tmpl", f}
+	}
+	return []string{"-type", sel}
+}
+
+func anyHuge(srcs []string) bool {
+	for _, s := range srcs {
+		if t, err := parse.String(s); err == nil && hugeShift(t) {
+			return true
+		}
+	}
+	return false
+}
+
+// genOut runs the history and returns the exit statuses and the final file (nil = it does not exist).
+func genOut(sel string, srcs []string) (exits []int, file []byte) {
+	dir := scratch()
+	defer os.RemoveAll(dir)
+	out := filepath.Join(dir, "out.txt")
+	targs := templateArgs(dir, sel)
+	for k, src := range srcs {
+		e, _ := addchainGen(dir, append(append([]string{}, targs...), "-out", out), src, k%2 == 0)
+		exits = append(exits, e)
+	}
+	b, err := os.ReadFile(out)
+	if err != nil {
+		return exits, nil
+	}
+	if b == nil {
+		b = []byte{}
+	}
+	return exits, b
+}
+
+func genStdout(sel, src string) (int, string) {
+	dir := scratch()
+	defer os.RemoveAll(dir)
+	return addchainGen(dir, templateArgs(dir, sel), src, len(src)%2 == 0)
+}
+
 // ---------------------------------------------------------------- Run
 
 func run(c string) string {
@@ -262,6 +384,27 @@ func run(c string) string {
 			return "err " + cls
 		}
 		return "ok " + lib.Bytes([]byte(out))
+	case f[0] == "genstdout" && len(f) == 3:
+		src := string(lib.ParseBytes(f[2]))
+		if anyHuge([]string{src}) {
+			return "err toolarge"
+		}
+		e, out := genStdout(f[1], src)
+		return "ok " + strconv.Itoa(e) + " " + lib.Bytes([]byte(out))
+	case f[0] == "genout" && len(f) >= 3:
+		srcs := make([]string, len(f)-2)
+		for k := range srcs {
+			srcs[k] = string(lib.ParseBytes(f[k+2]))
+		}
+		if anyHuge(srcs) {
+			return "err toolarge"
+		}
+		exits, file := genOut(f[1], srcs)
+		fs := "nofile"
+		if file != nil {
+			fs = lib.Bytes(file)
+		}
+		return "ok " + lib.IntList(exits) + " " + fs
 	case f[0] == "runlisting" && len(f) == 3 && (f[2] == "separate" || f[2] == "aliased"):
 		out, cls := generate("listing", string(lib.ParseBytes(f[1])))
 		if cls != "" {
@@ -401,11 +544,102 @@ func checkScript(text string, vals []*big.Int) string {
 	return ""
 }
 
+// checkOutput states the property on one delivered output of template tmpl for script src.
+func checkOutput(tmpl, src, text string) string {
+	t, err := parse.String(src)
+	if err != nil {
+		return "output generated for a script that does not parse"
+	}
+	vals, ops, ok := reference(t)
+	if !ok {
+		return "output generated for a script that does not denote a chain"
+	}
+	switch tmpl {
+	case "listing":
+		return checkListing(text, vals[len(vals)-1])
+	case "chain":
+		return checkChain(text, vals)
+	case "ops":
+		return checkOps(text, vals, ops)
+	case "script":
+		return checkScript(text, vals)
+	}
+	return ""
+}
+
+// oracleBinary: what `addchain gen` delivers (standard output, or the -out file after a history of
+// invocations) is the output for the last accepted script, and that output meets the property.
+func oracleBinary(f, r []string) string {
+	if r[0] != "ok" || len(r) != 3 {
+		return ""
+	}
+	sel := f[1]
+	tmpl := strings.TrimPrefix(sel, "tmpl:")
+	builtin := false
+	for _, t := range templates {
+		builtin = builtin || t == tmpl
+	}
+	if f[0] == "genstdout" {
+		if !builtin {
+			return ""
+		}
+		src := string(lib.ParseBytes(f[2]))
+		if r[1] != "0" {
+			if r[2] != "-" {
+				return "output printed although the command failed"
+			}
+			return ""
+		}
+		lib_, cls := generate(tmpl, src)
+		if cls != "" {
+			return "the command succeeded on a script the library refuses (" + cls + ")"
+		}
+		text := string(lib.ParseBytes(r[2]))
+		if text != lib_ {
+			return "standard output differs from gen.Generate"
+		}
+		return checkOutput(tmpl, src, text)
+	}
+	// genout
+	if !builtin {
+		return "" // custom template that does not parse / unknown type: outside the property
+	}
+	exits := lib.ParseIntList(r[1])
+	last := -1
+	for k, e := range exits {
+		if e == 0 {
+			last = k
+		}
+	}
+	if last < 0 {
+		if r[2] != "nofile" {
+			return "an output file exists although every invocation failed"
+		}
+		return ""
+	}
+	if r[2] == "nofile" {
+		return "no output file although an invocation succeeded"
+	}
+	src := string(lib.ParseBytes(f[2+last]))
+	file := string(lib.ParseBytes(r[2]))
+	e, want := genStdout(sel, src)
+	if e != 0 {
+		return "gen to standard output fails on a script that gen -out accepted"
+	}
+	if file != want {
+		return fmt.Sprintf("the -out file (%d bytes) is not what gen prints for the last accepted script (%d bytes)", len(file), len(want))
+	}
+	return checkOutput(tmpl, src, file)
+}
+
 func oracle(c, res string) string {
 	f := strings.Split(c, " ")
 	r := strings.Split(res, " ")
 	if r[0] == "panic" {
 		return "panic: " + res
+	}
+	if f[0] == "genstdout" || f[0] == "genout" {
+		return oracleBinary(f, r)
 	}
 	if r[0] != "ok" {
 		return "" // refused: allowed (a refusal never yields code)
@@ -750,6 +984,88 @@ func gen(tier string, r *lib.Rand, emit func(string)) {
 	for i := 0; i < nmut/4; i++ {
 		emit("gen listing " + hex(acclib.RandomTokenSequence(r, 2+r.Intn(6))))
 	}
+	genBinary(tier, r, emit, srcs)
+}
+
+// genBinary: the stream through the real binary. Histories of `gen -out F` into the same file: a longer
+// output followed by a shorter one (also a line-aligned prefix of it), the reverse, a refused script in the
+// middle / first / last, all builtin templates by -type and by -tmpl, a template file that does not parse,
+// an unknown type; and gen to standard output.
+func genBinary(tier string, r *lib.Rand, emit func(string), srcs []string) {
+	nhist, nstd := 90, 120
+	if tier == "thorough" {
+		nhist, nstd = 2500, 3000
+	}
+	refused := []string{"return 1", "a = 1 << 3\nreturn a + [2]", "return zz", "a = 1 + 1\nb = [1]\nreturn a + b", "return (", ""}
+	sels := []string{"listing", "chain", "ops", "script", "tmpl:listing", "tmpl:chain", "tmpl:ops", "tmpl:script"}
+	// the seeded shape: the chain for 391 = 23*17 extends the chain for 23
+	long23 := "_10 = 2*1\n_100 = 2*_10\n_101 = 1 + _100\n_1010 = 2*_101\n_1011 = 1 + _1010\n_10111 = 2*_1011 + 1\ni = _10111 << 4\nreturn i + _10111\n"
+	short23 := "_10 = 2*1\n_100 = 2*_10\n_101 = 1 + _100\n_1010 = 2*_101\n_1011 = 1 + _1010\nreturn 2*_1011 + 1\n"
+	for _, sel := range sels {
+		emit("genout " + sel + " " + hex(long23) + " " + hex(short23))
+		emit("genout " + sel + " " + hex(short23) + " " + hex(long23))
+		emit("genout " + sel + " " + hex(long23) + " " + hex("return 1") + " " + hex(short23))
+		emit("genout " + sel + " " + hex(long23) + " " + hex("return 1"))
+		emit("genout " + sel + " " + hex("return zz") + " " + hex(short23))
+		emit("genout " + sel + " " + hex(short23))
+		emit("genstdout " + sel + " " + hex(long23))
+	}
+	for _, sel := range []string{"nosuch", "tmpl:broken", "", "Listing"} {
+		if sel == "" {
+			continue
+		}
+		emit("genout " + sel + " " + hex(long23) + " " + hex(short23))
+		emit("genout " + sel + " " + hex("return 1") + " " + hex(short23) + " " + hex("return zz"))
+		emit("genstdout " + sel + " " + hex(short23))
+	}
+	emit("genout listing " + hex(long23) + " " + hex(short23))
+	emit("genout tmpl:broken " + hex("return 1"))
+	pick := func() string {
+		if r.Chance(1, 5) {
+			return refused[r.Intn(len(refused))]
+		}
+		if r.Chance(1, 3) {
+			return srcs[r.Intn(len(srcs))]
+		}
+		s, _ := scriptOfProgram(randProgram(r, r.Range(1, 12)))
+		return s
+	}
+	for i := 0; i < nhist; i++ {
+		sel := sels[r.Intn(len(sels))]
+		if r.Chance(1, 12) {
+			sel = []string{"nosuch", "tmpl:broken"}[r.Intn(2)]
+		}
+		var hist []string
+		switch r.Intn(3) {
+		case 0: // a program and a proper prefix of it, long first
+			p := randProgram(r, r.Range(3, 16))
+			q := p[:r.Range(1, len(p)-1)]
+			a, _ := scriptOfProgram(p)
+			b, _ := scriptOfProgram(q)
+			hist = []string{a, b}
+			if r.Chance(1, 3) {
+				hist = []string{a, refused[r.Intn(len(refused))], b}
+			} else if r.Chance(1, 4) {
+				hist = []string{b, a}
+			}
+		case 1:
+			hist = []string{pick(), pick()}
+		default:
+			hist = []string{pick(), pick(), pick()}
+		}
+		hs := make([]string, len(hist))
+		for k, s := range hist {
+			hs[k] = hex(s)
+		}
+		emit("genout " + sel + " " + strings.Join(hs, " "))
+	}
+	for i := 0; i < nstd; i++ {
+		sel := sels[r.Intn(len(sels))]
+		if r.Chance(1, 15) {
+			sel = "nosuch"
+		}
+		emit("genstdout " + sel + " " + hex(pick()))
+	}
 }
 
 func usesIdent(e ast.Expr) bool {
@@ -774,6 +1090,12 @@ func nontrivial(c, res string) bool {
 		src = string(lib.ParseBytes(f[2]))
 	case "runlisting":
 		src = string(lib.ParseBytes(f[1]))
+	case "genout":
+		// a history with at least two invocations of which one succeeded
+		r := strings.Split(res, " ")
+		return len(f) >= 4 && len(r) == 3 && strings.Contains(","+r[1]+",", ",0,")
+	case "genstdout":
+		return strings.HasPrefix(res, "ok 0 ")
 	default:
 		return false
 	}
